@@ -19,6 +19,18 @@ name, RNG re-seeded before every call so that surrogate / shuffling methods are 
              gives the same B as from pristine data.
   statics    static / helper functions leave their array arguments untouched.
 
+Variants built for this harness only (registry attribute harness="C06"): networks whose link
+attribute 'w' is 0 on existing links and full of ties (Network un/directed, InteractingNetworks;
+GeoNetwork on a grid with two polar and two coinciding points, where 'w' = the angular distance
+and the lazily installed 'distance' attribute are 0 on links) - all ordered pairs among the
+weighted queries (path_lengths, average_path_length, closeness, global_efficiency,
+local_vulnerability, betweenness / link_betweenness / interregional / cross measures with 'w',
+distance-weighted measures) are run as cold pairs on top of the sample; series with NaN samples
+and missing_values=True: VisibilityGraph (natural and horizontal; all ordered pairs among the
+visibility queries), RecurrencePlot (plain and delay-embedded), RecurrenceNetwork.  Snapshots of
+all object fields (time_series, missing_value_indices, timings, embedding, R, adjacency, ...) are
+compared bit for bit with NaN == NaN.
+
 Oracle: the property itself (value of a query on an object without history; bit-identical
 snapshots) - no measure is re-implemented.  Comparison of values: exact for integers, rtol 1e-9
 (float64) / 1e-5 (float32); snapshots are compared bit for bit.
@@ -549,7 +561,12 @@ def main():
     scope = ("all classes of specs/stateful_registry.py (Network un/directed, InteractingNetworks, Spatial/Geo/"
              "Res networks, VisibilityGraph, ClimateNetwork + 8 data-derived subclasses incl. coupled and event "
              "series networks, ClimateData, Data, Grid, GeoGrid, Recurrence/Cross/JointRecurrence plots, "
-             "Recurrence/JointRecurrence/InterSystem networks, Surrogates, EventSeries; 5-14 nodes / samples); "
+             "Recurrence/JointRecurrence/InterSystem networks, Surrogates, EventSeries; 5-14 nodes / samples; "
+             "plus Network un/directed, InteractingNetworks with link attribute 'w' in {0,1,2,3,4} (0 on two "
+             "existing links, ties), GeoNetwork with 2 polar + 2 coinciding grid points ('w' = angular distance, "
+             "0 on two links), VisibilityGraph natural / horizontal on 12 samples with 3 NaN (missing_values=True), "
+             "RecurrencePlot (also dim 2, tau 2) and RecurrenceNetwork on 14 samples with 1-3 NaN: for these all "
+             "ordered pairs among the weighted / visibility queries are run in addition); "
              "every public query with name-based argument patterns (incl. link attribute 'w' present via "
              "a set_link_attribute call, typical_weight=2.0, node lists).  quick: all single queries, 450-900 seeded cold "
              "ordered pairs, 15-30 'q1 then all' chains and 30-60 random sequences (length 3-6) per class; "
